@@ -32,9 +32,10 @@ echo "== demo on the clean copy (expect exit 0)"
 echo "== demo on the patched copy (expect non-zero)"
 (cd "$seed/demo" && timeout 600 bash ./run.sh "$tmp/patched" > "$tmp/demo-patched.log" 2>&1); rc2=$?; tail -5 "$tmp/demo-patched.log"; echo "demo patched exit=$rc2"
 echo "== checks on the patched copy"
+cp /verif/bin/goccverif "$tmp/gv"   # a private copy: the checker may be rebuilt while this runs
 mkdir -p "$tmp/ev/evidence"; cp /verif/known_findings.json "$tmp/ev/"
-for p in $(/verif/bin/goccverif -list | tr ' ' '\n' | grep '^C[0-9]'); do
-  out=$(/verif/bin/goccverif -prop "$p" -tier quick -repo "$tmp/patched" -out "$tmp/ev/evidence" 2>&1); rc=$?
+for p in $("$tmp/gv" -list | tr ' ' '\n' | grep '^C[0-9]'); do
+  out=$("$tmp/gv" -prop "$p" -tier quick -repo "$tmp/patched" -out "$tmp/ev/evidence" 2>&1); rc=$?
   if [ $rc -ne 0 ]; then echo "CHECK $p exit=$rc"; echo "$out" | grep -v '^VIOLATION' | grep 'REFUTED\|UNDECIDED' | cut -c1-400 | head -4; fi
   [ "$p" = "$prop" ] && echo "PROPERTY-CHECK $p exit=$rc"
 done
